@@ -173,6 +173,26 @@ def run(tier):
     # the same calls in another order: every permutation of a multiset of calls (entry point x type x spelling of
     # the directory) must leave the same directory (Trace_Confluence.tla with key = the multiset)
     hres = exportchecks.run_slice("hist", tier, ostats) + ores
+    # ... and whatever an earlier run left in the directory: the files of the exported types after the same calls on an
+    # empty directory and on one full of (longer) stale files
+    sres = exportchecks.run_slice("stale", tier, ostats)
+
+    def done_files(r_):
+        done = {d_[0] for d_ in json.loads(r_["key"].split("|", 1)[1])}
+        return {p_: b_ for p_, b_ in r_["final_tree"].items() if any(d_.endswith("/" + p_) for d_ in done)}
+    import exportlib
+    cross = sorted(({"key": json.dumps(sorted(exportchecks.describe_steps([s_]) for s_ in r_["steps"])), "sha": exportlib.tree_sha(done_files(r_)), "hid": n_}
+                    for n_, r_ in enumerate(hres + sres)), key=lambda x: (x["key"], x["sha"]))
+    cp2 = os.path.join(vlib.TMP, "c13-cross.ndjson")
+    vlib.write_ndjson(cp2, cross)
+    ca = vlib.run_tlc("Trace_Confluence", "Trace_Confluence.cfg", workers=8, timeout=1200, env={"VERIF_TRACE": cp2}, tags=("BAD",), metatag="c13cross")
+    vlib.tlc_must_succeed(ca, "Trace_Confluence (directory contents beforehand)")
+    allr = hres + sres
+    for i_ in ca.payloads("BAD"):
+        a_, b_ = allr[cross[i_ - 1]["hid"]], allr[cross[i_ - 2]["hid"]]
+        v.fail({"prop": PROP, "kind": "files of the exported types after the same calls, other contents beforehand", "owner": "universe", "what": "tree",
+                "types": exportchecks.types_in(a_["steps"])},
+               {"history": exportchecks.describe_steps(a_["steps"]), "slice_a": a_["slice"], "slice_b": b_["slice"], "tree": a_["final_tree"], "other_tree": b_["final_tree"]})
     perm = sorted(({"key": json.dumps(sorted(exportchecks.describe_steps([s_]) for s_ in r_["steps"])), "sha": r_["sha"], "hid": n_} for n_, r_ in enumerate(hres)),
                   key=lambda x: (x["key"], x["sha"]))
     cpath = os.path.join(vlib.TMP, "c13-perm.ndjson")
